@@ -39,7 +39,7 @@ def cases(tier, seed):
                               S_ref_type="projected" if k % 5 == 4 else "wetted", t_over_c_cp=[float(np.round(rng.uniform(0.08, 0.15), 3))]))
         flow = dict(alpha=float(np.round(rng.uniform(-4, 10), 2)), beta=0.0, v=float(rng.uniform(50, 260)), rho=float(rng.uniform(0.3, 1.2)),
                     Mach_number=float(np.round(rng.uniform(0.5, 0.9), 3)), re=1e6, cg=[float(np.round(rng.uniform(-1, 3), 3)), 0.0, float(np.round(rng.uniform(-1, 1), 3))])
-        out.append(dict(kind="aero", surfaces=surfs, flow=flow, compressible=bool(k % 4 == 3), _cost=4 * ns))
+        out.append(dict(kind="aero", surfaces=surfs, flow=flow, compressible=bool(k % 4 == 3), sref=(float(np.round(rng.uniform(5, 60), 2)) if k % 5 == 2 else None), _cost=4 * ns))
     n = 12 if tier == "quick" else 270
     for k in range(n):
         fem = "tube" if k % 2 else "wingbox"
@@ -91,11 +91,11 @@ def half_slice(F_full, ny_half, left):
 
 def run_aero(c, o):
     surfs = c["surfaces"]
-    H = zoo.build_aero(dict(surfaces=surfs, flow=c["flow"], compressible=c["compressible"]), geom=False)
+    H = zoo.build_aero(dict(surfaces=surfs, flow=c["flow"], compressible=c["compressible"], S_ref_total=c.get("sref")), geom=False)
     zoo.run(H)
     tw = twin_surfaces(surfs)
     clean = [{k: v for k, v in s.items() if not k.startswith("_")} for s in tw]
-    F = zoo.build_aero(dict(surfaces=clean, flow=c["flow"], compressible=c["compressible"]), geom=False)
+    F = zoo.build_aero(dict(surfaces=clean, flow=c["flow"], compressible=c["compressible"], S_ref_total=c.get("sref")), geom=False)
     zoo.run(F)
     base_tags = ["compressible" if c["compressible"] else "incompressible", "nsurf=%d" % len(surfs)]
     anyoff = any(abs(float(s["mesh"].get("root_y", 0.0))) > 0 for s in surfs)
